@@ -22,7 +22,9 @@ def runMonitor (pid : String) (c : MonCtx) (ls : List Label) : Option (Option Na
   match pid with
   | "C01" => some (ff (monC01 c) ls)
   | "C02" => some (ff (monC02 c) ls)
-  | "C03" => some (ff (monC03 c) ls)
+  | "C03" => some (match ff (monC03 c) ls with
+      | some k => some k
+      | none => ff (monC03q c) ls)
   | "C04" => some (ff (monC04 c) ls)
   | "C05" => some (ff (monC05 c) ls)
   | "C06" => some (ff (monC06 c) ls)
